@@ -105,6 +105,10 @@ Definition mark_line_to_go (t : tmachine) (line : nat) : tmachine :=
 Inductive exn := XExit | XError | XSysExit.      (* ExitMainLoop | an ordinary Exception | SystemExit(1) *)
 
 Inductive event :=
+| ESigNew (sid cls : nat) (prio : Z) (src : option nat)   (* a signal object was created *)
+| ERegHandler (cls hid data : nat)           (* register_signal_handler *)
+| ERegSource (o : nat) (q : nat)             (* register_signal_source: o added to queue object q *)
+| ESetQuitCb (arg : nat)
 | EEnq (sid : nat) (q : nat)                 (* signal put into queue object q *)
 | EDropped (sid : nat)                       (* enqueue_signal after force_quit: discarded *)
 | EDispatch (sid : nat) (q : nat) (depth : nat)   (* signal taken from queue q for processing; depth = open levels *)
@@ -124,6 +128,7 @@ Inductive event :=
 | EKill                                       (* kill_app_with_traceback: excepthook + stack dump + exit(1) *)
 | EExt (sid : nat)                            (* a signal submitted by another thread arrived *)
 | EMark (tag : nat)
+| ETop                                        (* a new call from outside any handler begins (emitted by the session driver) *)
 | EUser (tag : nat) (args : list nat) (text : list N).   (* events of upper layers *)
 
 (* ------------------------------------------------------------------ programs *)
@@ -174,6 +179,10 @@ Section Loop.
 
   Definition emit (e : event) (s : lstate) : lstate := s <| trace := e :: trace s |>.
 
+  (* handler code can only log marks and upper-layer events, never forge the loop's own events *)
+  Definition user_event (e : event) : event :=
+    match e with EMark _ | EUser _ _ _ => e | _ => EMark 0 end.
+
   Definition get_q (s : lstate) (q : nat) : equeue := nth q (qstore s) empty_queue.
   Fixpoint set_nth {A} (l : list A) (n : nat) (x : A) : list A :=
     match l, n with
@@ -218,7 +227,8 @@ Section Loop.
       emit (EEnq (sg_id sg) q) (set_q s q (q_put (get_q s q) sg)).
 
   Definition new_signal (s : lstate) (sp : sigspec) : signal * lstate :=
-    (mk_signal (next_sig s) sp, s <| next_sig := S (next_sig s) |>).
+    (mk_signal (next_sig s) sp,
+     emit (ESigNew (next_sig s) (sp_cls sp) (sp_prio sp) (sp_src sp)) (s <| next_sig := S (next_sig s) |>)).
 
   (* self._active_queue.get(): Some (signal, state) | None = would block for ever *)
   Definition do_get (s : lstate) : option (signal * lstate) + lstate :=
@@ -365,9 +375,11 @@ Section Loop.
             | _ => (o, s4)
             end
         | ACloseLoop =>
-          let '(o, s1) := exec f (CProcIter None) s in
+          (* self.process_signals() *)
+          let '(o, s0) := exec f (CProcIter None) (emit (EProcEnter None 0) s) in
           match o with
           | ONormal =>
+            let s1 := emit (EProcReturn None 0) s0 in
             match rev (levels s1) with
             | [] => (OThrow XError, s1)                       (* self._event_queues.pop(): IndexError *)
             | top :: rest_rev =>
@@ -377,9 +389,14 @@ Section Loop.
               | q :: _ => (ONormal, s2 <| active := q |> <| run_loop := false |>)
               end
             end
+          | _ => (o, s0)
+          end
+        | AProcess None =>
+          let '(o, s1) := exec f (CProcIter None) (emit (EProcEnter None 0) s) in
+          match o with
+          | ONormal => (ONormal, emit (EProcReturn None 0) s1)
           | _ => (o, s1)
           end
-        | AProcess None => exec f (CProcIter None) s
         | AProcess (Some cls) =>
           let '(t, tm) := take_ticket (tickets s) cls in
           let s1 := emit (EProcEnter (Some cls) t) (s <| tickets := tm |>) in
@@ -388,9 +405,11 @@ Section Loop.
           | ONormal => (ONormal, emit (EProcReturn (Some cls) t) s2)
           | _ => (o, s2)
           end
-        | ARegSource o => (ONormal, set_q s (active s) (q_add_source (get_q s (active s)) o))
-        | ARegHandler cls hid data => (ONormal, s <| handlers := add_handler (handlers s) cls hid data |>)
-        | ASetQuitCb arg => (ONormal, s <| quit_cb := Some arg |>)
+        | ARegSource o =>
+          (ONormal, emit (ERegSource o (active s)) (set_q s (active s) (q_add_source (get_q s (active s)) o)))
+        | ARegHandler cls hid data =>
+          (ONormal, emit (ERegHandler cls hid data) (s <| handlers := add_handler (handlers s) cls hid data |>))
+        | ASetQuitCb arg => (ONormal, emit (ESetQuitCb arg) (s <| quit_cb := Some arg |>))
         | AExtAdd sp => (ONormal, s <| ext := ext s ++ [sp] |>)
         end
       (* ---- handler bodies ---- *)
@@ -406,8 +425,22 @@ Section Loop.
           match o with OThrow XError => exec f (CProg h) s1 | _ => (o, s1) end
         | PApi a => exec f (CApi a) s
         | PSt g => let '(u', p') := g (ust s) in exec f (CProg p') (s <| ust := u' |>)
-        | PEmit e => (ONormal, emit e s)
+        | PEmit e => (ONormal, emit (user_event e) s)
         end
+      end
+    end.
+
+  (* ---- a session: calls made from outside any handler, one after the other ---- *)
+  Inductive top := TRun | TProg (p : prog).
+
+  Fixpoint run_session (fuel : nat) (acts : list top) (s : lstate) : list outcome * lstate :=
+    match acts with
+    | [] => ([], s)
+    | a :: r =>
+      let '(o, s1) := exec fuel (match a with TRun => CRun | TProg p => CProg p end) (emit ETop s) in
+      match o with
+      | OBlocked | OFuel | OThrow XSysExit => ([o], s1)      (* the session ends here *)
+      | _ => let '(os, s2) := run_session fuel r s1 in (o :: os, s2)
       end
     end.
 End Loop.
@@ -415,3 +448,4 @@ End Loop.
 Arguments prog : clear implicits.
 Arguments lstate : clear implicits.
 Arguments call : clear implicits.
+Arguments top : clear implicits.
